@@ -127,6 +127,9 @@ Proof.
   - (* top-level attribute *)
     rewrite Hnc in Hmod. cbn in Hmod.
     destruct (ps_field_accepts fi v); inversion Hmod; subst o1; clear Hmod. cbn.
+    assert (forall x d, ps_dcontains attr (ps_dset attr x d) = true) as Hc
+      by (intros; unfold ps_dcontains; rewrite ps_dget_opt_dset_same; reflexivity).
+    rewrite Hc. cbn.
     eexists. split; [reflexivity|]. cbn. split.
     + rewrite ps_dget_dset_same. unfold ps_dget at 1. rewrite ps_dget_opt_dset_same. exact Hwt.
     + apply ps_dcontains_dremove.
@@ -222,14 +225,27 @@ Lemma ps_restore_overlap_refuted :
   ps_get_attr ps_w_path_a o = PsNum 5 0 /\ ps_get_attr ps_w_path_a o3 = PsDict [([98], PsNum 1 0)].
 Proof. vm_compute. repeat split. Qed.
 
-(* restoring a top-level attribute that is not modified while original_attributes exists wipes it *)
-Lemma ps_restore_unmodified_refuted :
+(* fixed by 587182ba: restoring a top-level attribute that original_attributes does not list changes nothing
+   (neither value, original_attributes nor version), whatever else is modified *)
+Theorem ps_restore_unmodified_noop fe attr updv now o :
+  length (ps_split attr) = 1%nat -> ps_orig_mentions attr o = false ->
+  snd (ps_restore_attribute fe attr updv now o) = o.
+Proof.
+  intros Hlen Hm. unfold ps_restore_attribute. unfold ps_orig_mentions, ps_orig_dict in Hm.
+  destruct (ps_split attr) as [|f [|r rest]]; try discriminate.
+  destruct (ps_filookup fe f); [|reflexivity].
+  destruct (ps_m_orig o) as [og|]; [|reflexivity].
+  rewrite Hm. reflexivity.
+Qed.
+
+(* the situation that used to wipe the attribute (witness of the former finding restore-unmodified-wipes) *)
+Example ps_restore_unmodified_witness :
   let o := ps_w_obj (PsDict [([97], PsNum 5 0)]) in
   let o1 := snd (ps_modify_attribute ps_w_fe ps_w_path_a (PsNum 6 0) true 1%Z o) in
   let o2 := snd (ps_restore_attribute ps_w_fe [110] true 2%Z o1) in
-  ps_orig_mentions [110] o1 = false /\ fst (ps_restore_attribute ps_w_fe [110] true 2%Z o1) = true /\
-  ps_get_attr [110] o1 = PsStr [120] /\ ps_get_attr [110] o2 = PsStr [].
-Proof. vm_compute. repeat split. Qed.
+  ps_orig_mentions [110] o1 = false /\ ps_m_orig o1 <> None /\ fst (ps_restore_attribute ps_w_fe [110] true 2%Z o1) = true /\
+  ps_get_attr [110] o2 = PsStr [120].
+Proof. vm_compute. repeat split. discriminate. Qed.
 
 (* a dictionary replaced by a scalar: DumpModifiedAttributes throws *)
 Lemma ps_dump_modattrs_throws_refuted :
